@@ -80,13 +80,12 @@ class ContractIndex:
         modname = 'contracts.' + os.path.basename(path)[:-3]
         m = ModuleInfo(modname, path, text, tree)
         for node in tree.body:
-            if isinstance(node, ast.ImportFrom) and node.module and node.module.startswith('plumpy'):
+            if isinstance(node, ast.ImportFrom) and node.module and not node.module.startswith('pyvc'):
                 for a in node.names:
                     m.imports[a.asname or a.name] = node.module + '.' + a.name
             elif isinstance(node, ast.Import):
                 for a in node.names:
-                    if a.name.startswith('plumpy'):
-                        m.imports[a.asname or a.name.split('.')[0]] = a.name if a.asname else a.name.split('.')[0]
+                    m.imports[a.asname or a.name.split('.')[0]] = a.name if a.asname else a.name.split('.')[0]
             elif isinstance(node, ast.Assign) and len(node.targets) == 1 and isinstance(node.targets[0], ast.Name):
                 if node.targets[0].id == 'CONFIG':
                     self.configs[modname] = ast.literal_eval(node.value)
@@ -134,7 +133,7 @@ class ContractIndex:
         return missing
 
 
-SPEC_FUNCS = {'take', 'last', 'old', 'implies', 'iff', 'fresh', 'seq', 'dhas', 'dget', 'dlen', 'forall', 'exists', 'type_is',
+SPEC_FUNCS = {'same_dict_old', 'is_heap_obj', 'owned', 'take', 'last', 'old', 'implies', 'iff', 'fresh', 'seq', 'dhas', 'dget', 'dlen', 'forall', 'exists', 'type_is',
               'is_str', 'is_int', 'is_none', 'is_bool', 'is_ref', 'calls', 'isinstance', 'len', 'ite', 'cls_of',
               'attr', 'same_dict', 'same_seq', 'sval', 'ival', 'unchanged', 'allocated', 'subseq', 'contains',
               'prefixof', 'suffixof', 'strlen', 'substr', 'str_contains', 'str_indexof', 'int_of', 'empty_seq',
@@ -809,6 +808,16 @@ class SpecMixin:
                              self.dict_len(st, ra) == self.dict_len(st, rb),
                              z3.ForAll([k], z3.Implies(self.dict_has(st, ra, k), self.dict_get(st, ra, k) == self.dict_get(st, rb, k)))))
 
+    def sf_same_dict_old(self, st, node, env, cmod):
+        """same_dict_old(a, b): contents of a now == contents of b in the pre-state"""
+        a, b = self._args(st, node, env, cmod)
+        o = env['__old__']
+        ra, rb = r_of(self.to_term(st, a)), r_of(self.to_term(st, b))
+        k = smt.fresh('k', Val)
+        return BoolTermV(AND(z3.Select(st.DH, ra) == z3.Select(o.DH, rb),
+                             self.dict_len(st, ra) == self.dict_len(o, rb),
+                             z3.ForAll([k], z3.Implies(self.dict_has(st, ra, k), self.dict_get(st, ra, k) == self.dict_get(o, rb, k)))))
+
     def sf_same_seq(self, st, node, env, cmod):
         a, b = self._args(st, node, env, cmod)
         return BoolTermV(self.spec_seq(st, a) == self.spec_seq(st, b))
@@ -857,6 +866,15 @@ class SpecMixin:
         if res.sort() == smt.Bool:
             return BoolTermV(res)
         return RawV(res)
+
+    def sf_owned(self, st, node, env, cmod):
+        (a,) = self._args(st, node, env, cmod)
+        return BoolTermV(z3.Select(st.ghost['OWN'], r_of(self.to_term(st, a))))
+
+    def sf_is_heap_obj(self, st, node, env, cmod):
+        (a,) = self._args(st, node, env, cmod)
+        t = self.to_term(st, a)
+        return BoolTermV(AND(is_ref(t), r_of(t) >= I(self.first_heap_id())))
 
     def sf_none_(self, st, node, env, cmod):
         return self.py_none()
